@@ -53,7 +53,10 @@ def main(args):
         to_delete: List[pathlib.Path] = []
 
         for inner in curr_path.iterdir():
-            if not inner.is_dir():
+            if not inner.is_dir() or inner.is_symlink():
+                # N.B. Never follow symbolic links. A link is not a task
+                # output directory, and its target may be outside of the
+                # output directory (or be another package's directory).
                 continue
             exp_match = _EXPERIMENT_TASK_REGEX.match(inner.name)
             if exp_match is None:
